@@ -278,6 +278,92 @@ def rule_R5b(ctx):
 SELECTIVE = ("::filter", "::filter_map", "::take", "::skip", "::take_while", "::skip_while", "::step_by", "::nth", "::dedup", "::retain", "::truncate")
 
 
+def rule_R10(ctx):
+    """R10: the header-count cap admits a head with exactly max_headers headers (the documented limit is inclusive)"""
+    P = ctx.program
+    b = P.method1("Http1Parser", "parse_headers")
+    S = T.Slicer(b, P)
+    found = False
+    for (rb, j, term, _c) in TB.return_sites(b, P):
+        tt = T.strip(term)
+        if not (tt[0] == "agg" and tt[3] == "Err" and any(x[0] == "agg" and x[3] == "TooManyHeaders" for x in T.walk(tt))):
+            continue
+        for c in Q.canon_conds(P, T.dom_conds(b, S, rb)):
+            if c[0] == "cmp" and any(x[0] == "field" and x[2] == "max_headers" for x in T.walk(c[3])) and T.has_call(c[2], "::len"):
+                found = True
+                strict = (c[1] == "Gt" and c[4]) or (c[1] == "Le" and not c[4])
+                ctx.check(strict, "R10", "parse_headers:max-headers-inclusive", "rejected only when the number of header lines exceeds max_headers",
+                          "a head with exactly max_headers header lines is rejected (comparison %s%s): well-formed heads at the documented limit are not reported"
+                          % (c[1], "" if c[4] else " negated"), ctx.loc(b, rb))
+    if not found:
+        ctx.cannot("R10", "parse_headers:max-headers-inclusive", "TooManyHeaders exit with a `len > max_headers` test not found", ctx.loc(b))
+
+
+def rule_R8(ctx):
+    """R8: a header line / cookie pair is divided at its FIRST separator only (`:` / `=`): the value is everything after it, so values
+    that contain the separator themselves (URLs, base64 padding, k=v payloads) are reported whole"""
+    P = ctx.program
+    sites = (("huginn_net_http::http1_parser::Http1Parser", "parse_cookies", "="), ("huginn_net_http::http1_parser::Http1Parser", "parse_headers", ":"),
+             ("huginn_net_http::http2_parser::Http2Parser", "parse_cookies_from_headers", "="))
+    n = 0
+    for ty, fn, sep in sites:
+        try:
+            b = P.method1(ty.split("::")[-1], fn)
+        except AnchorMissing as e:
+            ctx.cannot("R8", fn + ":first-separator", str(e))
+            continue
+        S = T.Slicer(b, P)
+        bad = []
+        good = 0
+        for cb in [b] + P.closures_of(b.path):
+            CS = T.Slicer(cb, P) if cb is not b else S
+            for blk, t in cb.calls():
+                nm = callee_of(t)
+                if "str" not in nm:
+                    continue
+                last = nm.rsplit("::", 1)[-1]
+                if last not in ("split", "rsplit", "split_terminator", "rsplitn", "rsplit_once", "rfind", "find", "split_once", "splitn", "split_inclusive"):
+                    continue
+                a = Q.call_args(cb, CS, blk, t)
+                pats = [x[1] for y in a[1:] for x in T.walk(y) if x[0] == "const" and isinstance(x[1], str)]
+                if sep not in pats:
+                    continue
+                if last in ("find", "split_once"):
+                    good += 1
+                elif last == "splitn":
+                    k = [T.fold_int(y) for y in a[1:] if T.fold_int(y) is not None]
+                    if k and k[0] == 2:
+                        good += 1
+                    else:
+                        bad.append((cb, blk, "%s(%s, ..)" % (last, k)))
+                else:
+                    bad.append((cb, blk, last + "(%r)" % sep))
+        n += good
+        ctx.check(good >= 1 and not bad, "R8", fn + ":first-separator", "divided at the first `%s` (find / split_once / splitn(2))" % sep,
+                  "%s divides at every `%s` (%s): a value that contains the separator is cut short (`session=dXNl==` gives `dXNl`, `prefs=lang=en` gives `lang`)"
+                  % (fn, sep, ", ".join(x[2] for x in bad) or "no first-separator search found"), ctx.loc(bad[0][0], bad[0][1]) if bad else ctx.loc(b))
+    ctx.floor("R8", "first-separator searches in header / cookie parsing", n, 3)
+
+
+def rule_R9(ctx):
+    """R9: what the header order (horder) records for an ordinary header is its value as parsed - no value dependent dropping"""
+    P = ctx.program
+    for path in ("huginn_net_http::http1_process::convert_headers_to_http_format", "huginn_net_http::http2_process::convert_http2_headers_to_http_format"):
+        b = P.body(path)
+        S = T.Slicer(b, P)
+        n = 0
+        for blk, t in Q.calls(b, "with_optional_value"):
+            a = Q.call_args(b, S, blk, t)
+            n += 1
+            v = a[-1]
+            drops = sorted({T.short(x[1]) for x in T.calls_in(v) if x[1].endswith(("::filter", "::take_if", "::and_then", "::filter_map", "::xor", "::zip", "::then", "::then_some"))})
+            fromv = any(x[0] == "field" and x[2] == "value" for x in T.walk(v))
+            ctx.check(fromv and not drops, "R9", "%s:value-as-parsed" % T.short(path).split("::")[-1], "horder value = header.value",
+                      "the value recorded in the header order goes through %s: a header with a particular value (e.g. an empty one) is rendered as if it had none "
+                      "(`Name` instead of `Name=[]`)" % (",".join(drops) or "something other than header.value"), ctx.loc(b, blk))
+        ctx.floor("R9", "with_optional_value sites in " + T.short(path).split("::")[-1], n, 1)
+
+
 def rule_R7(ctx):
     """a common header that is present under any capitalisation is not listed as absent (header names are case-insensitive)"""
     P = ctx.program
@@ -369,3 +455,6 @@ def run(ctx):
     rule_R5b(ctx)
     rule_R6(ctx)
     rule_R7(ctx)
+    rule_R8(ctx)
+    rule_R9(ctx)
+    rule_R10(ctx)
